@@ -1,5 +1,6 @@
 import KitProofs.Lemmas.CoalescingWindow
 import KitProofs.Lemmas.CoalescingProgress
+import KitProofs.Lemmas.CoalescingSim
 /-!
 Property C09 — coalescing rate limiter (`events/ratelimiting/coalescing.go`).
 
@@ -93,6 +94,61 @@ theorem source_shape_as_modelled :
   ⟨fire_def, rfl, capReached_def, rfl, rfl, backoffVals_def, handleTimer_def, rfl, rfl,
    newTimerArg_def, resetTimerArg_def, rfl, rfl, rfl, rfl, rfl, rfl, init_def, rfl, rfl,
    step_add_def, rfl, rfl, rfl, rfl, rfl, rfl⟩
+
+/-! ### every trace the driver accepts is a run of the LTS
+
+`Sim.accepts` is the state-set simulation `kitdrv C09` runs (the driver applies `Sim.stepSet` per
+line).  Accepted ⇒ there is a run of `Kit.Coalescing.step` from `init` whose directly observed
+transitions (Run call/return, clock moves, receives with their clock stamp, cancel, Close return)
+are exactly the observed ones in order, whose `Add`/`Close` effects lie between the observed calls
+and returns — for every prefix of the trace — and whose states at the `settle` events have the
+counted goroutines and the armed deadline (`Sim.settle_matches`).  So the theorems of this file,
+which hold in every reachable state, apply to every accepted real execution. -/
+
+theorem accepts_sound {cfg : Config} {hooks : Bool} {tr : List Sim.Ev}
+    (h : Sim.accepts cfg hooks tr = true) :
+    ∃ ls s, exec cfg (init cfg) ls = some s ∧ Reach cfg s ∧
+      ls.filter Sim.isDirect = tr.filterMap Sim.directLabel ∧
+      ls.count .add ≤ tr.count .addcall ∧ tr.count .addret ≤ ls.count .add ∧
+      ls.count .close ≤ tr.count .closecall := by
+  obtain ⟨ls, d', hr⟩ := Sim.accepts_wrun h
+  have he := hr.exec
+  obtain ⟨c1, c2, c3⟩ := hr.counts
+  refine ⟨ls, d'.m, he, reach_exec ls Reach.init he, hr.direct, ?_, ?_, ?_⟩ <;>
+    simp [Sim.initD] at c1 c2 c3 <;> omega
+
+/-- The same for every prefix of an accepted trace (linearizability bracket at every point). -/
+theorem accepts_sound_prefix {cfg : Config} {hooks : Bool} {tr1 tr2 : List Sim.Ev}
+    (h : Sim.accepts cfg hooks (tr1 ++ tr2) = true) :
+    ∃ ls1 ls2 s1 s2, exec cfg (init cfg) ls1 = some s1 ∧ exec cfg s1 ls2 = some s2 ∧
+      Reach cfg s1 ∧ Reach cfg s2 ∧
+      ls1.filter Sim.isDirect = tr1.filterMap Sim.directLabel ∧
+      ls2.filter Sim.isDirect = tr2.filterMap Sim.directLabel ∧
+      ls1.count .add ≤ tr1.count .addcall ∧ tr1.count .addret ≤ ls1.count .add := by
+  obtain ⟨ls, d', hr⟩ := Sim.accepts_wrun h
+  obtain ⟨ls1, ls2, dm, _, r1, r2⟩ := hr.split
+  have e1 := r1.exec
+  have e2 := r2.exec
+  obtain ⟨c1, c2, _⟩ := r1.counts
+  have hr1 := reach_exec ls1 Reach.init e1
+  refine ⟨ls1, ls2, dm.m, d'.m, e1, e2, hr1, reach_exec ls2 hr1 e2, r1.direct, r2.direct, ?_, ?_⟩ <;>
+    simp [Sim.initD] at c1 c2 <;> omega
+
+/-- `accepts` itself is not kernel-reducible (hash set); that it does accept is witnessed at run
+time (every trace the harness reports as validated). The step relation it searches is inhabited: -/
+example :
+    ((Sim.obsStep demo true .runcall (Sim.initD demo)).bind fun d =>
+     (Sim.tauLabel demo true d .run).bind fun d =>
+     (Sim.tauLabel demo true d .top).bind fun d =>
+     (Sim.obsStep demo true .addcall d).bind fun d =>
+     (Sim.tauAdd demo d).bind fun d =>
+     (Sim.obsStep demo true .addret d).bind fun d =>
+     (Sim.tauLabel demo true d .deliver).bind fun d =>
+     (Sim.obsStep demo true (.hin false) d).bind fun d =>
+     (Sim.tauLabel demo true d .top).bind fun d =>
+     (Sim.obsStep demo true (.settle 0 1 true (some 100)) d).bind fun d =>
+     (Sim.obsStep demo true (.recv 0) d).map fun d => (d.m.fires, d.m.consumed)) = some (1, 1) := by
+  decide +kernel
 
 /-! ### signals never exceed Adds -/
 
